@@ -416,7 +416,8 @@ fn exec_inner(root: &VfsPath, op: &Op) -> Res {
                 match s {
                     WStep::Write(b) => ioerr(w.write_all(b))?,
                     WStep::Seek(wh, off) => {
-                        ioerr(w.seek(seek_from(*wh, *off)))?;
+                        // a failing seek (before the start) leaves the position unchanged; the session goes on
+                        let _ = w.seek(seek_from(*wh, *off));
                     }
                     WStep::Flush => ioerr(w.flush())?,
                 }
@@ -431,7 +432,8 @@ fn exec_inner(root: &VfsPath, op: &Op) -> Res {
                 match s {
                     WStep::Write(b) => ioerr(w.write_all(b))?,
                     WStep::Seek(wh, off) => {
-                        ioerr(w.seek(seek_from(*wh, *off)))?;
+                        // a failing seek (before the start) leaves the position unchanged; the session goes on
+                        let _ = w.seek(seek_from(*wh, *off));
                     }
                     WStep::Flush => ioerr(w.flush())?,
                 }
@@ -449,6 +451,11 @@ fn exec_inner(root: &VfsPath, op: &Op) -> Res {
                 ioerr(r.read_to_end(&mut v))?;
                 Ok(Out::Bytes(v))
             } else {
+                // "can be read" is one observation: File::open on a directory succeeds on Linux and only the
+                // first read fails, so probe once (and rewind) before the script starts
+                let mut probe = [0u8; 1];
+                ioerr(r.read(&mut probe))?;
+                ioerr(r.seek(SeekFrom::Start(0)))?;
                 Ok(Out::Script(run_rscript(&mut *r, script)))
             }
         }
